@@ -441,8 +441,15 @@ def rule_keyorder(F, R, rule="R14-keyorder"):
                     continue
                 n += 1
                 fn = norm(hb["path"])
-                keys = [c for c in exprs(hb["body"], "MethodCall") if c["m"] in ("next_key", "next_key_seed", "next_entry", "next_entry_seed")]
-                outside = [c for c in keys if not _inside_loop_any(hb["body"], c)]
+                # a visitor that names its keys is identified by them (stable when the visitor type is renamed or merged into
+                # its seed type); others by their path
+                named = sorted({v for v in common.str_lits(hb["body"], C) if isinstance(v, str) and 0 < len(v) <= 16 and " " not in v and v.isidentifier()})
+                if named:
+                    fn = "%s: visit_map of the visitor for keys [%s]" % (fn.lstrip("<").split("::")[0], ",".join(named))
+                # key requests made by the visitor, directly or through private helpers of the same file
+                Sk = sem.Sem(C, hb)
+                keys = [x for x in Sk.sites() if x.node.get("k") == "MethodCall" and x.node["m"] in ("next_key", "next_key_seed", "next_entry", "next_entry_seed")]
+                outside = [x for x in keys if not x.in_loop]
                 R.check(not outside, rule, fn, "keys are consumed in a loop, in whatever order they arrive",
                         "%d key request(s) outside a loop: the visitor expects the keys in one fixed order and rejects the same "
                         "map when they arrive in another (e.g. from a serde_json::Value, which sorts keys)" % len(outside), hb["span"])
